@@ -18,12 +18,16 @@ def raw_weight(band, f, fc):
     return T.site(T.seq(x, 0), 1, w), x
 
 
-def _setup(V, st, zero_bin, on_grid=False, amp_dtype='complex'):
+def _setup(V, st, zero_bin, on_grid=False, amp_dtype='complex', targets='given'):
+    """targets='default': smooth_fa_frequencies is left at its default None = the (non-zero) Fourier frequencies themselves"""
     def setup():
         n, P = V.size('n', 2), V.size('P', 1)
         f = V.array('f', n, origin='param')
         F = V.array('F', n, amp_dtype, origin='param')
         fc = V.array('fc', P, origin='param')
+        if targets == 'default':
+            P = n - (1 if zero_bin else 0)
+            fc = V.lib.getitem(f, slice(1 if zero_bin else 0, None))
         band = V.real('band')
         V.assume(band >= 5, band <= 100)
         for k in range(n):
@@ -42,6 +46,8 @@ def _setup(V, st, zero_bin, on_grid=False, amp_dtype='complex'):
                 tot = T.sadd(tot, raw_weight(band, f[i], fc[j])[0])
             V.assume(T.sgt(tot, 0))
         st.update(n=n, P=P, f=f, F=F, fc=fc, band=band)
+        if targets == 'default':
+            return dict(fa_frequencies=f, fa_spectrum=F, band=band)
         return dict(fa_frequencies=f, fa_spectrum=F, smooth_fa_frequencies=fc, band=band)
     return setup
 
@@ -51,11 +57,13 @@ def amp(c):
 
 
 @unit('C07', 'calc_smooth_fa_spectrum', functions=[FR + 'calc_smooth_fa_spectrum', FR + 'generate_smooth_fa_spectrum'],
-      cases=[dict(zero_bin=z, on_grid=g, fn=fn) for z in (False, True) for g in (False, True) for fn in ('calc',)] + [dict(zero_bin=True, on_grid=False, fn='deprecated')],
+      cases=[dict(zero_bin=z, on_grid=g, fn=fn) for z in (False, True) for g in (False, True, 'default-targets') for fn in ('calc',)] + [dict(zero_bin=True, on_grid=False, fn='deprecated')],
       modes=('bounded',), sizes=dict(n=[3], P=[1, 2]), thorough_sizes=dict(n=[2, 3, 4], P=[1, 2, 3]), budget_ms=60000)
 def smooth(V, zero_bin, on_grid, fn):
     st = {}
-    base = _setup(V, st, zero_bin, on_grid, 'float')
+    if on_grid == 'default-targets' and V.sizes.get('P') != 1:
+        raise Skip()                                                # P is determined by n here: run once per n
+    base = _setup(V, st, zero_bin, on_grid is True, 'float', targets='default' if on_grid == 'default-targets' else 'given')
 
     def setup():
         kw = base()
@@ -64,6 +72,7 @@ def smooth(V, zero_bin, on_grid, fn):
         return kw
     name = FR + ('calc_smooth_fa_spectrum' if fn == 'calc' else 'generate_smooth_fa_spectrum')
     for out in V.run(name, setup):
+        out.replay_info = dict(module='smoothing', fn=fn, zero_bin=zero_bin, targets='default' if on_grid == 'default-targets' else 'given')
         if not out.no_raise():
             continue
         n, P, f, F, fc, band = (st[k] for k in ('n', 'P', 'f', 'F', 'fc', 'band'))
@@ -109,19 +118,22 @@ def smooth(V, zero_bin, on_grid, fn):
             out.prove('every-amplitude-within-[min,max][%d]' % j, T.sand(*[T.sand(T.sle(lo, amp(F[i])), T.sle(amp(F[i]), hi)) for i in range(i0, n)]))
         out.unchanged('f', f)
         out.unchanged('F', F)
-        out.unchanged('fc', fc)
+        if on_grid != 'default-targets':
+            out.unchanged('fc', fc)
 
 
 @unit('C07', 'matrix-form-equals-direct-form', functions=[FR + 'calc_smoothing_matrix_konno_1998', FR + 'calc_smooth_fa_spectrum_w_custom_matrix'],
-      cases=[dict(zero_bin=True)], modes=('bounded',), sizes=dict(n=[3], P=[2]), budget_ms=60000)
-def matrix_form(V, zero_bin):
+      cases=[dict(zero_bin=True, targets='given'), dict(zero_bin=True, targets='default')], modes=('bounded',), sizes=dict(n=[3], P=[2]), budget_ms=60000)
+def matrix_form(V, zero_bin, targets):
     st = {}
-    base = _setup(V, st, zero_bin, False, 'complex')
+    base = _setup(V, st, zero_bin, False, 'complex', targets=targets)
 
     def setup():
         kw = base()
-        return dict(fa_frequencies=kw['fa_frequencies'], smooth_fa_frequencies=kw['smooth_fa_frequencies'], band=kw['band'])
+        kw.pop('fa_spectrum')
+        return kw
     for out in V.run(FR + 'calc_smoothing_matrix_konno_1998', setup):
+        out.replay_info = dict(module='smoothing', fn='calc', zero_bin=zero_bin, targets=targets)
         if not out.no_raise():
             continue
         n, P, f, F, fc, band = (st[k] for k in ('n', 'P', 'f', 'F', 'fc', 'band'))
@@ -137,7 +149,10 @@ def matrix_form(V, zero_bin):
             out.prove('matrix-columns-sum-to-one[%d]' % j, T.seq(col, 1), atomize=True)
         asig = V.obj('eqsig.single.AccSignal', _cached_fa=True, _fa_spectrum=F, _fa_freqs=f, _values=V.array('x', 2), _npts=2, _dt=Q('0.01'))
         via_matrix = V.itp.call(V.itp.get_function(FR + 'calc_smooth_fa_spectrum_w_custom_matrix'), [asig, Mx], {})
-        direct = V.itp.call(V.itp.get_function(FR + 'calc_smooth_fa_spectrum'), [f, F, fc], dict(band=band))
+        direct = V.itp.call(V.itp.get_function(FR + 'calc_smooth_fa_spectrum'), [f, F, fc] if targets == 'given' else [f, F], dict(band=band))
+        out.prove('direct-form-has-one-entry-per-target', is_arr(direct) and tuple(direct.shape) == (P,))
+        if not (is_arr(direct) and tuple(direct.shape) == (P,)):
+            continue
         out.prove('matrix-form-equals-direct-form', T.sand(*[T.seq(via_matrix[j], direct[j]) for j in range(P)]), atomize=True)
 
 
@@ -190,27 +205,39 @@ def spec_weights(V, f, fc, band, n, P):
 
 
 @unit('C07', 'window-and-normalisation (unbounded)', functions=[FR + 'calc_smoothing_matrix_konno_1998', FR + 'calc_smooth_fa_spectrum'],
-      cases=[dict(fn='matrix')], modes=('unbounded',), budget_ms=30000)   # (the direct form's column sums are bounded-checked only)
-def unbounded_structure(V, fn):
+      cases=[dict(fn='matrix', targets=t, zero_bin=z) for t in ('given', 'default') for z in (False, True)],
+      modes=('unbounded',), budget_ms=30000)   # (the direct form's column sums are bounded-checked only)
+def unbounded_structure(V, fn, targets, zero_bin):
     st = {}
+    i0 = 1 if zero_bin else 0
 
     def setup():
-        n, P = V.size('n', 2), V.size('P', 1)
+        n, P = V.size('n', 2 + i0), V.size('P', 1)
         f = V.array('f', n, origin='param')
         F = V.array('F', n, 'float', origin='param')
         fc = V.array('fc', P, origin='param')
+        if targets == 'default':
+            P = T.ssub(n, i0)
+            fc = V.lib.getitem(f, slice(i0, None))
         band = V.real('band')
-        V.assume(band >= 5, band <= 100, f[0] > 0)
+        V.assume(band >= 5, band <= 100, f[0] == 0 if zero_bin else f[0] > 0)
         st.update(n=n, P=P, f=f, F=F, fc=fc, band=band)
-        if fn == 'matrix':
-            return dict(fa_frequencies=f, smooth_fa_frequencies=fc, band=band)
-        return dict(fa_frequencies=f, fa_spectrum=F, smooth_fa_frequencies=fc, band=band)
+        kw = dict(fa_frequencies=f, band=band)
+        if targets != 'default':
+            kw['smooth_fa_frequencies'] = fc
+        if fn != 'matrix':
+            kw['fa_spectrum'] = F
+        return kw
     name = FR + ('calc_smoothing_matrix_konno_1998' if fn == 'matrix' else 'calc_smooth_fa_spectrum')
     for out in V.run(name, setup):
+        out.replay_info = dict(module='smoothing', fn=fn, zero_bin=zero_bin, targets=targets)
         if not out.no_raise():
             continue
         out.side_conditions()
         n, P, f, F, fc, band = (st[k] for k in ('n', 'P', 'f', 'F', 'fc', 'band'))
+        f_all = f
+        if zero_bin:                                                   # the zero-frequency bin is dropped
+            f, F, n = V.lib.getitem(f, slice(1, None)), V.lib.getitem(F, slice(1, None)), T.ssub(n, 1)
         W, Ssum = spec_weights(V, f, fc, band, n, P)
         r = out.result
         if fn == 'matrix':
@@ -225,8 +252,9 @@ def unbounded_structure(V, fn):
             out.prove('one-value-per-target', T.sand(len(r.shape) == 1, T.seq(r.shape[0], P)))
             for j in V.idx(0, P, 'j'):
                 out.prove('smoothed-amplitude-is-sum_i |F_i| W_ij / S_j', T.seq(r[j], want[j]))
-        out.unchanged('f', f)
-        out.unchanged('fc', fc)
+        out.unchanged('f', f_all)
+        if targets != 'default':
+            out.unchanged('fc', fc)
 
 
 # ------------------------------------------------------------------------------------------------------ bandwidth
